@@ -210,7 +210,7 @@ def option_arms(body, local, proj=None):
 
 # ------------------------------------------------------------------------------- T-ERRFLOW
 ERR_ADAPTORS = re.compile(r'anyhow::Context<.*>::(with_context|context)$|anyhow::Context<.*>::(with_context|context)::<|'
-                          r'Option::<.*>::ok_or(_else)?(::<.*>)?$|Result::<.*>::map_err(::<.*>)?$|Option::<.*>::copied$|Option::<.*>::cloned$')
+                          r'Option::<.*>::ok_or(_else)?(::<.*>)?$|Result::<.*>::map_err(::<.*>)?$|Option::<.*>::copied$|Option::<.*>::cloned$|Option::<.*>::map::<.*>$|Result::<.*>::map::<.*>$|Option::<.*>::as_ref$|Option::<.*>::as_mut$')
 ERR_BAD = re.compile(r'::(unwrap_or|unwrap_or_default|unwrap_or_else|map_or|map_or_else|ok|unwrap|expect|is_some|is_none|is_ok|is_err|and_then|or_else|or|filter|unwrap_unchecked)(::<.*>)?$')
 
 
